@@ -209,6 +209,92 @@ fn check_pretag(c: &PreTagCase, cx: &mut Cx) -> Res {
     Ok(())
 }
 
+#[derive(Debug, Clone, Hash, Serialize, Deserialize)]
+pub struct ChainCase {
+    pub tag: [u64; 3],
+    pub v_prefix: bool,
+    pub branch: Option<usize>,
+    pub before: u8,          // commits before the tag
+    pub steps: Vec<bool>,    // true = merge a side line, false = plain commit
+    pub preset: usize,
+    pub hash_len: u32,
+}
+fn check_chain(c: &ChainCase, cx: &mut Cx) -> Res {
+    use crate::gitlab::{Op, Repo};
+    let mut repo = match Repo::new() {
+        Ok(r) => r,
+        Err(e) => {
+            infra(format!("cannot create repository: {e}"));
+            return Ok(());
+        }
+    };
+    let mut run = |repo: &mut Repo, op: Op| -> bool {
+        if let Err(e) = repo.apply(&op) {
+            infra(format!("git operation failed in the harness: {e}"));
+            return false;
+        }
+        true
+    };
+    if let Some(b) = c.branch
+        && !run(&mut repo, Op::Branch { name: b })
+    {
+        return Ok(());
+    }
+    for _ in 0..c.before {
+        if !run(&mut repo, Op::Commit { time_skew: 0 }) {
+            return Ok(());
+        }
+    }
+    let tag = format!("{}{}.{}.{}", if c.v_prefix { "v" } else { "" }, c.tag[0], c.tag[1], c.tag[2]);
+    {
+        let mut cmd = std::process::Command::new("git");
+        crate::gitlab::git_env(&mut cmd);
+        let ok = cmd.current_dir(&repo.dir).args(["tag", &tag]).status().map(|s| s.success()).unwrap_or(false);
+        if !ok {
+            infra("git tag failed");
+            return Ok(());
+        }
+    }
+    let schema = POST_PRESETS[c.preset % POST_PRESETS.len()];
+    let x = format!("{}.{}.{}", c.tag[0], c.tag[1], c.tag[2]);
+    cx.nt_if(!c.steps.is_empty());
+    cx.label_if(c.steps.iter().any(|m| *m), "merge-in-chain");
+    for pep440 in [false, true] {
+        let fmt = if pep440 { "pep440" } else { "semver" };
+        let o = crate::proc::run(&crate::proc::Spec {
+            args: cli::sv(&["flow", "-C", &repo.path(), "--post-mode", "commit", "--schema", schema, "--output-format", fmt, "--hash-branch-len", &c.hash_len.to_string()]),
+            cwd: Some("/".into()),
+            ..Default::default()
+        });
+        ensure!(o.code == Some(0), "flow failed at the tag commit: {}", o.err_str());
+        let at_tag = o.out_str().trim_end().to_string();
+        let core = if schema.ends_with("-context") && schema != "standard-no-context" { at_tag.split('+').next().unwrap_or("").to_string() } else { at_tag.clone() };
+        ensure!(core == x, "clean checkout at tag {tag}: flow prints {at_tag:?}, expected {x} ({fmt}, {schema})");
+    }
+    let mut prev: [String; 2] = [x.clone(), x.clone()];
+    for (i, merge) in c.steps.iter().enumerate() {
+        let op = if *merge { Op::Merge { other: 0, third: None, time_skew: -50_000 } } else { Op::Commit { time_skew: if i % 2 == 0 { -100_000 } else { 50_000 } } };
+        if !run(&mut repo, op) {
+            return Ok(());
+        }
+        for (k, pep440) in [false, true].into_iter().enumerate() {
+            let fmt = if pep440 { "pep440" } else { "semver" };
+            let o = crate::proc::run(&crate::proc::Spec {
+                args: cli::sv(&["flow", "-C", &repo.path(), "--post-mode", "commit", "--schema", schema, "--output-format", fmt, "--hash-branch-len", &c.hash_len.to_string()]),
+                cwd: Some("/".into()),
+                ..Default::default()
+            });
+            ensure!(o.code == Some(0), "flow failed {} commits after the tag: {}", i + 1, o.err_str());
+            let v = o.out_str().trim_end().to_string();
+            let ord = cmp_out(&prev[k], &v, pep440)?;
+            ensure!(ord == Ordering::Less, "step {} ({}): version did not increase along the first-parent chain: {:?} then {v:?} ({fmt}, {schema}; {})", i + 1, if *merge { "merge" } else { "commit" }, prev[k], repo.log.join("; "));
+            cx.note(|| format!("{tag} +{} -> {v}", i + 1));
+            prev[k] = v;
+        }
+    }
+    Ok(())
+}
+
 pub fn state() -> BoxedStrategy<State> {
     let n = || prop_oneof![3 => 0u64..10, 1 => gens::num::u32_biased().prop_map(|x| x.min(4294967293))];
     (
@@ -258,15 +344,27 @@ pub fn property() -> Property {
         },
         check_pretag,
     );
+    let chains = RandomSub::<ChainCase>::new(
+        "git-chains",
+        (100, 1_500),
+        |tier| {
+            ((0u64..30, 0u64..30, 0u64..30), any::<bool>(), proptest::option::weighted(0.7, 0usize..10), 0u8..3, proptest::collection::vec(prop::bool::weighted(0.25), 0..tier.pick(6, 12)), 0usize..7, 1u32..=9)
+                .prop_map(|((a, b, c), v_prefix, branch, before, steps, preset, hash_len)| ChainCase { tag: [a, b, c], v_prefix, branch, before, steps, preset, hash_len })
+                .boxed()
+        },
+        check_chain,
+    )
+    .shrink_iters(60)
+    .floor(0.5);
     Property {
         id: "C03",
-        rule: "cases = (final tag X.Y.Z, branch, distance None/0/1..10^6, dirty unset/--dirty/--no-dirty, default or generated valid rule set, post mode, hash length 1..9, standard preset, output format) on source none; pairs of distances in commit post-mode; pre-release tags of the shapes flow emits. Oracle: independent SemVer §11 / PEP 440 comparators: X.Y.Z < V < X.Y.(Z+1) (for standard-base[-context], which print only the core by design: V == X.Y.(Z+1)); clean at tag => exactly the tag; d1 < d2 => V(d1) < V(d2). The git-backed chain check lives in C02's repository sub-checks. Non-trivial = state not clean-at-tag and the branch is not matched by an exact rule; distance pairs with a positive lower distance or differing dirty state; every pre-release-tag case; distinct = distinct cases.",
+        rule: "cases = (final tag X.Y.Z, branch, distance None/0/1..10^6, dirty unset/--dirty/--no-dirty, default or generated valid rule set, post mode, hash length 1..9, standard preset, output format) on source none; pairs of distances in commit post-mode; pre-release tags of the shapes flow emits. Oracle: independent SemVer §11 / PEP 440 comparators: X.Y.Z < V < X.Y.(Z+1) (for standard-base[-context], which print only the core by design: V == X.Y.(Z+1)); clean at tag => exactly the tag; d1 < d2 => V(d1) < V(d2). git-chains: real repositories (native git), one base tag, successive commits/merges on the same branch probed with the real binary. Non-trivial = state not clean-at-tag and the branch is not matched by an exact rule; distance pairs with a positive lower distance or differing dirty state; every pre-release-tag case; distinct = distinct cases.",
         assumptions: vec![
             "tag numbers <= u32::MAX-2 so that the next patch exists in both formats",
             "standard-base and standard-base-context drop the pre-release by documented design; there V == X.Y.(Z+1) is asserted instead of the strict upper bound",
             "PEP 440 order is the public-version order (local build context ignored)",
         ],
-        subs: vec![bounds.boxed(), mono.boxed(), pretag.boxed()],
+        subs: vec![bounds.boxed(), mono.boxed(), pretag.boxed(), chains.boxed()],
         known_repro: vec![],
     }
 }
